@@ -337,7 +337,7 @@ func (s *state) walk(node parse.Node) error {
 			return err
 		}
 	case *parse.UseNode:
-		return s.walkUseNode(node)
+		return s.walkUseNode(node, false)
 	case *parse.ForNode:
 		return s.walkForNode(node)
 	case *parse.SetNode:
@@ -369,7 +369,7 @@ func (s *state) walkChild(node parse.Node) error {
 			}
 		}
 	case *parse.UseNode:
-		return s.walkUseNode(node)
+		return s.walkUseNode(node, true)
 	default:
 		// No need to handle other nodes. This function only populates blocks from a
 		// referenced template (in a use statement) and does not actually execute anything.
@@ -456,7 +456,10 @@ func (s *state) walkIncludeNode(node *parse.IncludeNode) (tpl string, ctx map[st
 	return tpl, ctx, err
 }
 
-func (s *state) walkUseNode(node *parse.UseNode) error {
+// walkUseNode adds the blocks of the used template to the block chain, below the
+// blocks of the template that uses them: above its ancestors' when it extends
+// another template, at the end of the chain when it does not.
+func (s *state) walkUseNode(node *parse.UseNode, extending bool) error {
 	v, err := s.evalExpr(node.Tpl)
 	if err != nil {
 		return err
@@ -473,6 +476,11 @@ func (s *state) walkUseNode(node *parse.UseNode) error {
 			return errors.New("Unable to locate block with name \"" + orig + "\"")
 		}
 		blocks[alias] = v
+	}
+	if !extending {
+		// the last table is the template's own
+		s.blocks = append(s.blocks, blocks)
+		return nil
 	}
 	l := len(s.blocks)
 	lb := s.blocks[l-1]
